@@ -79,6 +79,11 @@ func doRead(cfg *ucfg.Config, rd J, ropts []ucfg.Option) (res interface{}) {
 		// which of several failing settings is reported depends on the iteration order: any error is one outcome
 		var m map[string]interface{}
 		if err := cfg.Unpack(&m, ropts...); err != nil {
+			if boolD(rd, "path", false) {
+				// the case has one faulty setting: which setting the error names is part of the outcome
+				e := canonErr(err).(J)["err"].(J)
+				return J{"err": J{"typed": e["typed"], "path": e["path"]}}
+			}
 			return J{"err": J{"typed": errKind(err).(J)["err"].(J)["typed"]}}
 		}
 		var a []interface{}
